@@ -171,6 +171,10 @@ def path_segments(path: DDSPath) -> List[str]:
 
 class LocalFileStore(Store):
     def __init__(self, internal_dir: str, data_dir: str, create_dirs: bool = True):
+        # The directories are resolved once: the links written in the data directory refer to the blobs
+        # with their absolute path, and the store keeps working if the working directory changes.
+        internal_dir = os.path.abspath(internal_dir)
+        data_dir = os.path.abspath(data_dir)
         self._root = internal_dir
         self._data_root = data_dir
         if not os.path.isdir(internal_dir):
